@@ -109,7 +109,7 @@ def build_pool(cs, ctx):
         if cs.flip(f"e{j}.ties", 30):
             with np.errstate(all="ignore"):
                 e = np.round(e)
-        view, guards = pool.carve(e, "contig", f"e{j}")
+        view, guards = pool.carve(e, "contig_exact", f"e{j}")
         pool.add("ens", view, guards, f"ens[{n}x{m},{cls}]",
                  {f"n{n}", f"pair{j}"})
         o = fill_values(rs, n, VALUE_CLASSES[cs.draw(f"e{j}.ocls",
@@ -128,7 +128,7 @@ def build_pool(cs, ctx):
         k = cs.between(f"m{j}.k", 1, 4)
         cls = VALUE_CLASSES[cs.draw(f"m{j}.cls", len(VALUE_CLASSES))]
         view, guards = pool.carve(fill_values(rs, n * k, cls).reshape(n, k),
-                                  "contig", "m")
+                                  "contig_exact", "m")
         pool.add("mat", view, guards, f"mat[{n}x{k},{cls}]")
     # ---- irregular time series incl. shorter than one period, units ns/s
     for j in range(cs.between("nirr", 3, 5)):
@@ -195,24 +195,43 @@ def build_pool(cs, ctx):
         P = [0, 1, 2, 10, 40][cs.draw(f"pt{j}.P", 5)]
         cls = cs.choice(f"pt{j}.cls", ["other", "nan_some", "inf", "huge"])
         view, guards = pool.carve(fill_values(rs, 2 * P, cls).reshape(P, 2),
-                                  "contig", "pts")
+                                  "contig_exact", "pts")
         pool.add("points", view, guards, f"points[{P},{cls}]", {f"P{P}"})
         par = np.full(P + 16, SENT_I, dtype=np.int32)
         pool.parents.append(par)
         pool.add("inside", par[8:8 + P], [par[:8], par[8 + P:]],
                  f"inside[{P}]", {f"P{P}"})
+    # read-only answer buffers: a read-only memory map and an array that is
+    # merely flagged read-only (the wrapper must refuse both, not write)
+    import tempfile
+    import os as _os
+    for j, o in enumerate(list(pool.by_kind.get("points", []))):
+        P = len(o.obj)
+        if P == 0:
+            continue
+        fd, fn = tempfile.mkstemp(prefix="hyverif-ro-", dir="/dev/shm")
+        _os.write(fd, np.zeros(P, dtype=np.int32).tobytes())
+        _os.close(fd)
+        ro = np.memmap(fn, dtype=np.int32, mode="r", shape=(P,))
+        _os.unlink(fn)
+        pool.add("inside", ro, None, f"inside[{P}] read-only memmap",
+                 {f"P{P}", "readonly"})
+        flagged = np.zeros(P, dtype=np.int32)
+        flagged.flags.writeable = False
+        pool.add("inside", flagged, None, f"inside[{P}] flagged read-only",
+                 {f"P{P}", "readonly"})
     for j in range(3):
         k = [0, 1, 2, 3, 8][cs.draw(f"pg{j}.k", 5)]
         ang = np.sort(rs.uniform(0, 2 * np.pi, k))
         poly = np.column_stack([2 * np.cos(ang), 2 * np.sin(ang)]) if k \
             else np.zeros((0, 2))
-        view, guards = pool.carve(poly, "contig", "poly")
+        view, guards = pool.carve(poly, "contig_exact", "poly")
         pool.add("polygon", view, guards, f"polygon[{k}]")
     for j in range(2):
         k = [0, 1, 3, 12][cs.draw(f"gx{j}.k", 4)]
         gxy = np.column_stack([10.0 + rs.uniform(-1, 5, k),
                                -5.0 + rs.uniform(-1, 5, k)])
-        view, guards = pool.carve(gxy, "contig", "gxy")
+        view, guards = pool.carve(gxy, "contig_exact", "gxy")
         pool.add("gridxy", view, guards, f"gridxy[{k}]")
     return pool
 
